@@ -1,7 +1,10 @@
 GROUP = {
     # emit_batcher with NO cargo features on the scratch tree + stubs/batcher.toml + inject/batcher.rs
     "stub_sets": ["batcher"],
-    "kani_args": ["-Z", "stubbing"],
+    # --no-assertion-reach-checks: Kani's per-assertion reachability instrumentation made the receiver harnesses
+    # 2.5x slower (405 s -> 161 s measured) and its UNREACHABLE verdicts are not used by the runner: non-vacuity is
+    # established by explicit kani::cover! in every harness and by the mutant twins.
+    "kani_args": ["-Z", "stubbing", "--no-assertion-reach-checks"],
     # modules of the harness crate whose items the generated playback tests need in scope
     "modules": ["util", "s_send", "s_watch", "k_kernels", "r_exec"],
     "cbmc_args": [],
